@@ -42,10 +42,12 @@ theorem rebuild_survivors (ver : Bytes) (snap : Option Snap) (recs sub : List Re
   obtain ⟨r, hr, hs, _⟩ := (rebuild_spec ver snap sub res h).2.1 m h1 h2
   exact ⟨r, hsub r hr, hs⟩
 
-/-- a journal gap right after "no snapshot" is an error, never a guess -/
-theorem rebuild_gap_is_error (ver : Bytes) (recs : List Rec) (hne : recs.isEmpty = false)
-    (hgap : minSeq recs ≠ 1) : rebuild ver none recs = .error (minSeq recs) := by
-  unfold rebuild; simp [hne, hgap]
+/-- a journal that does not start at 1 right after an absent OR seq-0 snapshot is reported as
+    ErrBisyncJournalGap by `RebuildBisyncFrontier`, never guessed over (what `bisyncStartPoint`
+    does with that error: see `startFrontier`) -/
+theorem rebuild_gap_is_error (ver : Bytes) (snap : Option Snap) (recs : List Rec) (hne : recs.isEmpty = false)
+    (h0 : baseSeq snap = 0) (hgap : minSeq recs ≠ 1) : rebuild ver snap recs = .error (minSeq recs) := by
+  unfold rebuild; cases snap <;> simp_all [baseSeq]
 
 /-- the invariant holds in a fresh namespace (only the root checkpoint exists) -/
 theorem init_inv (W : World) (db : Nat) :
@@ -83,19 +85,91 @@ theorem coordinator_frontier_is_committed_prefix (W : World) (s₀ : Sys) (hi : 
   let hc := ((runSteps_inv (W := W) steps hi).co r h).1
   ⟨hc.2.1, hc.2.2⟩
 
-/-- Sync mode: `latest` is exactly the last unit the target committed, so a start resumes
-    at the end of that unit — nothing is applied twice, nothing skipped. -/
-theorem sync_mode_exact (W : World) (s₀ : SyncSys) (hi : SyncInv W s₀) (steps : List SyncStep)
-    (hmono : ∀ i, 0 ≤ i → W.e 0 ≤ W.e i) (hrid : matchRun W.rid W.ids = true) (r : Rec)
-    (hr : (syncRun W s₀ steps).ns.latest = some r) :
-    startLatest (syncRun W s₀ steps).ns W.ids
-      = .point 0 W.rid (W.e (syncRun W s₀ steps).last) (syncRun W s₀ steps).last :=
-  startLatest_of_inv (syncRun_inv steps hi) hmono hrid r hr
+/-- Sync mode, with restarts that really re-read the target: a process sends unit
+    `bisyncSeq+1` next, a restart sets `bisyncSeq` from what `bisyncStartPoint` (latest record,
+    root fall-back) returns. For EVERY interleaving of commits and restarts the units the target
+    applied are exactly 1, 2, …, n in order — none twice, none skipped — and a start resumes
+    at the end of unit n. -/
+theorem sync_mode_exact (W : World) (db : Nat) (steps : List SyncStep)
+    (hmono : ∀ i, 0 ≤ i → W.e 0 ≤ W.e i) (hrid : matchRun W.rid W.ids = true) :
+    ∃ n : Nat,
+      (syncRun W { ns := { root := some (W.rid, W.e 0, db) }, cur := 0 } steps).applied = upTo n ∧
+      ∃ db', startLatest (syncRun W { ns := { root := some (W.rid, W.e 0, db) }, cur := 0 } steps).ns W.ids
+        = .point db' W.rid (W.e n) n := by
+  have h0 : SyncInv W { ns := { root := some (W.rid, W.e 0, db) }, cur := 0 } 0 :=
+    ⟨⟨db, rfl⟩, rfl, rfl, fun _ => rfl, by intro r hr; simp at hr⟩
+  obtain ⟨n, hi⟩ := syncRun_inv hmono hrid steps h0
+  exact ⟨n, hi.applied, startLatest_of_inv hi hmono hrid⟩
+
+/-- no step touches the root checkpoint -/
+theorem root_unchanged (W : World) (steps : List Step) :
+    ∀ s : Sys, (runSteps W s steps).ns.root = s.ns.root := by
+  induction steps with
+  | nil => intro s; rfl
+  | cons st rest ih =>
+    intro s
+    show (runSteps W (step W s st) rest).ns.root = s.ns.root
+    rw [ih]
+    cases st with
+    | start =>
+      simp only [step]
+      cases s.run with
+      | some _ => rfl
+      | none =>
+        simp only [startRun]
+        cases startFrontier W.ver s.ns W.ids with
+        | mk st reqs => cases st <;> rfl
+    | commit i mt =>
+      simp only [step]
+      cases s.run with
+      | none => rfl
+      | some r => simp only; split <;> rfl
+    | report i mt now =>
+      simp only [step]
+      cases s.run with
+      | none => rfl
+      | some r => simp only; split <;> rfl
+    | tick now =>
+      simp only [step]
+      cases s.run <;> rfl
+    | apply =>
+      simp only [step]
+      cases s.queue with
+      | nil => rfl
+      | cons q rest' => cases q <;> rfl
+    | crash => rfl
+
+/-- After a stop at ANY moment a start succeeds: with the root checkpoint in place
+    `bisyncStartPoint` always returns a position (a journal gap behind an absent snapshot is a
+    fall-back to the root, D26) — there is no reachable state from which every start fails. -/
+theorem start_always_resumes (W : World) (s₀ : Sys) (steps : List Step) (root : Bytes × Int × Nat)
+    (hroot : s₀.ns.root = some root) :
+    IsPoint (startFrontier W.ver (runSteps W s₀ steps).ns W.ids).1 := by
+  have hr : (runSteps W s₀ steps).ns.root = some root := by rw [root_unchanged]; exact hroot
+  rcases startFrontier_cases W.ver (runSteps W s₀ steps).ns W.ids with ⟨h, _⟩ | ⟨r', reqs, _, hst, _⟩ |
+      ⟨r', f, _, _, _, _, hst⟩
+  · rw [hr] at h; exact absurd h (by simp)
+  · rw [hst]; trivial
+  · rw [hst]; trivial
+
+/-- the stored offsets of every reachable state follow the one numbering (bridge from the
+    system invariant to the hypothesis of `resume_monotone`) -/
+theorem consistent_of_inv (W : World) (s : Sys) (hi : SysInv W s)
+    (hm : ∀ i j, i ≤ j → W.e i ≤ W.e j) : Consistent W s.ns :=
+  ⟨hm, fun j hj => by rw [(hi.jr j hj).2.1, (hi.jr j hj).1], fun f hf => (hi.fr f hf).2.1, hi.root⟩
 
 /-- Stopping and starting again — any number of times, each process stopped after any
     number `ks[i]` of its recovery requests, no traffic in between — never moves the resume
-    point backwards (neither the offset nor the sequence number). -/
-theorem resume_monotone (W : World) (ns : NS) (hc : Consistent W ns)
+    point backwards (neither the offset nor the sequence number), from EVERY state the replay
+    system can reach (any step list: any crash point of a run with traffic). -/
+theorem resume_monotone (W : World) (s₀ : Sys) (hi : SysInv W s₀) (steps : List Step)
+    (hm : ∀ i j, i ≤ j → W.e i ≤ W.e j)
+    (hp : IsPoint (startFrontier W.ver (runSteps W s₀ steps).ns W.ids).1) (ks : List Nat) :
+    Ascending (restarts W.ver W.ids (runSteps W s₀ steps).ns ks) :=
+  restarts_ascending ks (consistent_of_inv W _ (runSteps_inv steps hi) hm) hp
+
+/-- the same for any namespace state whose stored offsets follow one monotone numbering -/
+theorem resume_monotone_of_consistent (W : World) (ns : NS) (hc : Consistent W ns)
     (hp : IsPoint (startFrontier W.ver ns W.ids).1) (ks : List Nat) :
     Ascending (restarts W.ver W.ids ns ks) :=
   restarts_ascending ks hc hp
@@ -132,13 +206,22 @@ example : Consistent exW exS.ns :=
   ⟨fun i j h => by simp only [exW]; omega,
    by decide,
    by intro f hf; have : exS.ns.frontier = some ⟨[114], 2, 1020, 7, [49]⟩ := by decide
-      rw [this] at hf; simp only [Option.some.injEq] at hf; subst hf; decide⟩
+      rw [this] at hf; simp only [Option.some.injEq] at hf; subst hf; decide,
+   by intro x hx; have : exS.ns.root = some ([114], 1000, 0) := by decide
+      rw [this] at hx; simp only [Option.some.injEq] at hx; subst hx; decide⟩
 
-/-- sync mode: three units committed one after the other -/
-def exSync : SyncSys := syncRun exW { ns := { root := some ([114], 1000, 0) }, last := 0 }
-  [.commitNext 5, .commitNext 6, .restart, .commitNext 7]
+/-- the state the reviewer found: fresh namespace, the lane of unit 1 is slow, unit 2 commits,
+    crash. `RebuildBisyncFrontier` reports a gap (journal {2}, no snapshot); the start falls back
+    to the root checkpoint and purges that journal instead of failing for ever. -/
+def exGap : Sys := runSteps exW { ns := { root := some ([114], 1000, 0) } } [.start, .commit 2 7, .crash]
+example : exGap.ns.journal.map (·.kseq) = [2] := by decide
+example : startFrontier exW.ver exGap.ns exW.ids
+    = (.point 0 [114] 1000 0, [.delRec 2, .zrem [2], .delFrontier]) := by decide
+
+/-- sync mode: units committed one after the other with restarts in between -/
+def exSync : SyncSys := syncRun exW { ns := { root := some ([114], 1000, 0) }, cur := 0 }
+  [.restart, .commitNext 5, .commitNext 6, .restart, .commitNext 7, .restart]
+example : exSync.applied = [1, 2, 3] := by decide
 example : startLatest exSync.ns exW.ids = .point 0 [114] 1030 3 := by decide
-example : SyncInv exW { ns := { root := some ([114], 1000, 0) }, last := 0 } :=
-  ⟨⟨0, rfl⟩, by decide, by intro r hr; simp at hr⟩
 
 end GunYu.Props.C14
